@@ -79,7 +79,9 @@ def r12_1(ctx):
     else:
         ctx.ok(construct, f.loc(writes[0]), exits=len(must.exits))
     construct = "Kconfig.sync_deps/the write of auto.conf is the last effect"
-    last = f.node.body[-1]
+    from .c09 import _trivial
+    sig = [x for x in f.node.body if not _trivial(x)]
+    last = sig[-1]
     ok = isinstance(last, ast.Expr) and any(c in writes for c in ast.walk(last))
     (ctx.ok(construct, f.loc(last)) if ok else ctx.bad(construct, "statements follow the write of auto.conf", f.loc(last)))
     w = repo.func(f"{CORE}:Kconfig._write_old_vals")
